@@ -21,6 +21,8 @@ type Linter struct {
 	lexers     map[string]*lexer.Lexer
 	ignore     *ignore
 	conf       *config.LinterConfig
+	// modules being included, to detect include cycles
+	includeStack []string
 }
 
 func New(c *config.LinterConfig, opts ...optionFunc) *Linter {
@@ -450,6 +452,21 @@ func (l *Linter) resolveFileInclusion(
 ) []ast.Statement {
 
 	var statements []ast.Statement
+	// A module that includes itself, directly or through other modules, never ends
+	for _, name := range l.includeStack {
+		if name == include.Module.Value {
+			e := &LintError{
+				Severity: ERROR,
+				Token:    include.GetMeta().Token,
+				Message: fmt.Sprintf(
+					"Include cycle detected: %s -> %s",
+					strings.Join(l.includeStack, " -> "), include.Module.Value,
+				),
+			}
+			l.Error(e.Match(INCLUDE_STATEMENT_MODULE_LOAD_FAILED))
+			return statements
+		}
+	}
 	module, err := ctx.Restore().Resolver().Resolve(include)
 	if err != nil {
 		e := &LintError{
@@ -466,6 +483,10 @@ func (l *Linter) resolveFileInclusion(
 	} else {
 		statements = l.loadSnippetVCL(module.Name, module.Data)
 	}
+	l.includeStack = append(l.includeStack, include.Module.Value)
+	defer func() {
+		l.includeStack = l.includeStack[:len(l.includeStack)-1]
+	}()
 	return l.resolveIncludeStatements(statements, ctx, isRoot)
 }
 
